@@ -31,6 +31,10 @@ CODECS = {'gzip': z, 'zstd': zstd}
 KINDS = ['zero', 'text', 'rand', 'mixed']
 
 
+class Frame(bytes):
+    """a bytes SUBCLASS (numpy.bytes_ is one): still a bytes object"""
+
+
 INPUT = ['bytes']       # how the chunks are handed over (set per case): bytes, bytearray, memoryview; 'nested' = subscribed and fed
                         # from inside another observable's callback (a running scheduler trampoline) through a live Subject
 
@@ -50,7 +54,7 @@ def compress(codec, chunks, ctx):
         rx.from_([0]).subscribe(on_next=run)
         r = box[0]
     else:
-        conv = {'bytes': bytes, 'bytearray': bytearray, 'memoryview': memoryview}[kind]
+        conv = {'bytes': bytes, 'bytearray': bytearray, 'memoryview': memoryview, 'subclass': Frame}[kind]
         r = drive.collect(rx.from_([conv(c) for c in chunks]).pipe(CODECS[codec].compress()))
     H.require_clean(r, codec + ' compress (%s input)' % kind, **ctx)
     return r.items
@@ -82,11 +86,16 @@ def check_roundtrip(case):
         raise Violation('the compressed stream is not a valid standalone %s file: %r' % (codec, e), **ctx)
     if ref != original:
         raise Violation('reference decompressor disagrees with the input', **ctx)
-    for mode in ('as-emitted', 'cuts', 'onebyte'):
+    for mode in ('as-emitted', 'cuts', 'onebyte', 'window-multiple'):
         if mode == 'as-emitted':
             parts = comp_chunks
         elif mode == 'cuts':
             parts = rechunk(comp, case['cuts'])
+        elif mode == 'window-multiple':
+            # the chunk that holds the end of the stream is exactly 2 x 131075 bytes long (zstd's recommended input size)
+            if len(comp) <= 262150:
+                continue
+            parts = [Frame(comp[:-262150]) if INPUT[0] == 'subclass' else comp[:-262150], comp[-262150:]]
         else:
             if len(comp) > 3000:
                 continue
@@ -215,7 +224,7 @@ def rt_case(draw):
     if big and draw(st.integers(0, 5)) == 0:
         chunks = chunks[:2] + [[5000000, 'zero', 0]]      # a few KB of compressed bytes that expand to 5 MB
     return {'codec': draw(st.sampled_from(['gzip', 'zstd'])), 'chunks': chunks, 'cuts': sorted(cuts),
-            'input': draw(st.sampled_from(['bytes', 'bytes', 'bytearray', 'memoryview', 'nested']))}
+            'input': draw(st.sampled_from(['bytes', 'bytes', 'bytearray', 'memoryview', 'nested', 'subclass']))}
 
 
 @st.composite
